@@ -14,7 +14,7 @@ INVS = ["NoLeak", "PatternDrops", "Rewritten", "Injective", "ReportExact", "NoPh
 OWNER = [("NoLeak", "C08"), ("PatternDrops", "C08"),
          ("Consistent", "C09"), ("Injective", "C09"), ("ReportExact", "C09"), ("NoPhantom", "C09"),
          ("ProvenanceMonotone", "C10"), ("BlankCollapses", "C10"), ("OneOrder", "C10"), ("Deterministic", "C10")]
-ALLK = ["text", "ip", "loop", "short", "fqdn", "dom", "mac", "nullmac", "kw", "pat", "pw"]
+ALLK = ["text", "ip", "loop", "short", "fqdn", "dom", "mac", "nullmac", "kw", "pat", "pw"]     # (+ "akey" in the allow-list configs)
 ALLD = ["edge", "space", "punct", "colon", "dash", "dotnum", "alpha", "digit"]
 
 
@@ -50,6 +50,7 @@ def cfg_text(c, emit=True, invs=INVS, prop=True):
              "  RegexSet = %s" % bset(c.get("regex", [False])), "  SysDomSet = %s" % bset(c.get("sysdom", [True])),
              "  NoRedSet = %s" % bset(c.get("nored", [False])), "  NoObfSets = %s" % ssets(c.get("noobf", [[]])),
              "  WidthSet = %s" % bset(c.get("width", [False])),
+             "  AllowSet = {%s}" % ", ".join(str(x) for x in c.get("allow", [0])),
              "  FamSet = %s" % sset(c.get("fam", ["plain"])),
              "  AllowBlank = %s" % ("TRUE" if c.get("blank") else "FALSE"),
              "  Runs = %d" % c.get("runs", 1),
@@ -114,6 +115,8 @@ CONFIGS = {
     # nothing to apply: no patterns, no keywords, every enabled obfuscator exempted (the machine-id spec)
     "runsnone": dict(kinds=["text", "ip", "fqdn"], tok=1, lines=2, blank=True, kws=[[]], pats=[[]], nored=[False, True],
                      noobf=[["hostname", "ip", "mac", "password"]], runs=2),
+    # filterable spec: allow list {key: max_match 1|2}, budgets used up by the content
+    "runsallow": dict(kinds=["text", "akey", "ip", "pat"], tok=1, lines=3, blank=True, pats=[[1]], allow=[1, 2], runs=2),
     # every order, two runs: OneOrder / Deterministic on the model
     "ordruns": dict(kinds=["kw", "fqdn", "pw", "pat"], tok=1, lines=1, blank=True, pats=[[1]],
                     fam=["plain", "kwdom", "pwip"], runs=2, allorders=True),
@@ -130,8 +133,8 @@ PLAN = {
     "C09": dict(quick=dict(emit=["hist2", "hist2x", "histw"], model=[], cap=8000, nconc=2, paths=["content"], long=80),
                 thorough=dict(emit=["hist2", "hist2x", "histw", "hist3ip", "hist3host", "hist3mac"], model=[], cap=50000, long=600,
                               nconc=3, paths=["content", "content", "provider", "file"])),
-    "C10": dict(quick=dict(emit=["runs3", "runs2sp", "runsnone"], model=["ordruns"], cap=700, seeds=16),
-                thorough=dict(emit=["runs3", "runs2sp", "runsnone", "runs2x2", "runs4"], model=["ordruns"], cap=5000, seeds=64)),
+    "C10": dict(quick=dict(emit=["runs3", "runs2sp", "runsnone", "runsallow"], model=["ordruns"], cap=700, seeds=16),
+                thorough=dict(emit=["runs3", "runs2sp", "runsnone", "runsallow", "runs2x2", "runs4"], model=["ordruns"], cap=5000, seeds=64)),
 }
 
 ASSUMPTIONS = [
@@ -381,6 +384,8 @@ def run(prop, tier):
     else:
         for c in cases:
             c["paths"] = ["content", "provider"]
+            if any(sp["sp"]["allow"] for sp in c["content"]):
+                c["paths"] = ["content", "filterprovider"]
         K = plan["seeds"]
         payload = dict(mode="runs", cases=cases, seed=lib.seed(), tmp=tmp)
         payloads = []
@@ -395,21 +400,22 @@ def run(prop, tier):
             ids = {}
             events = []
             for k, o in enumerate(outs):
-                r = o["runs"][c["id"]]
-                specs = []
-                for s in r["specs"]:
-                    sig = [ids.setdefault(t, len(ids) + 1) for t in s["texts"]]
-                    for od in s["orders"]:
-                        orders_seen.add(tuple(od))
-                    specs.append(dict(path=s["path"], si=s["si"], orders=s["orders"], out=s["out"], sig=sig,
-                                      stored=s["stored"], raised=s["raised"]))
-                events.append(dict(ev="run", hs=k, specs=specs))
+                # every child interpreter cleans the case several times: fresh Cleaner, same process, the caller's objects reused
+                for ri, r in enumerate(o["runs"][c["id"]]["reps"]):
+                    specs = []
+                    for s in r["specs"]:
+                        sig = [ids.setdefault(t, len(ids) + 1) for t in s["texts"]]
+                        for od in s["orders"]:
+                            orders_seen.add(tuple(od))
+                        specs.append(dict(path=s["path"], si=s["si"], orders=s["orders"], out=s["out"], sig=sig,
+                                          stored=s["stored"], raised=s["raised"], mutated=s["mutated"]))
+                    events.append(dict(ev="run", hs=k, rep=ri, specs=specs))
             events.append(dict(ev="endruns"))
             traces.append(dict(id=c["id"] + "/runs", mode="runs", prop=prop, cf=c["cf"], special=[], content=c["content"],
                                events=events,
-                               concrete=dict(input=outs[0]["runs"][c["id"]]["specs"][0]["input"],
-                                             outputs=sorted(set(json.dumps(o["runs"][c["id"]]["specs"][0]["texts"])
-                                                                for o in outs))[:4])))
+                               concrete=dict(input=outs[0]["runs"][c["id"]]["reps"][0]["specs"][0]["input"],
+                                             outputs=sorted(set(json.dumps(r["specs"][0]["texts"]) for o in outs
+                                                                for r in o["runs"][c["id"]]["reps"]))[:4])))
         extra["hash_seeds"] = K
         extra["distinct_application_orders_observed"] = len(orders_seen)
         vacuous = [] if orders_seen else ["application order"]
@@ -440,7 +446,7 @@ def run(prop, tier):
     for rj in val["rejected"]:
         t = bytrace[rj["id"]]
         clause = rj["clause"]
-        own = owner(clause)
+        own = prop if clause.startswith("Raised") else owner(clause)
         if own is None:
             raise lib.MachineryError("trace %s rejected by the non-property clause %s at event %d"
                                      % (t["id"], clause, rj["line"]))
@@ -503,10 +509,11 @@ def replay(prop, path):
                                        hashseeds=list(range(K)))
         ids, events = {}, []
         for k, o in enumerate(outs):
-            specs = [dict(path=s["path"], si=s["si"], orders=s["orders"], out=s["out"], stored=s["stored"],
-                          raised=s["raised"], sig=[ids.setdefault(t, len(ids) + 1) for t in s["texts"]])
-                     for s in o["runs"][case["id"]]["specs"]]
-            events.append(dict(ev="run", hs=k, specs=specs))
+            for ri, r in enumerate(o["runs"][case["id"]]["reps"]):
+                specs = [dict(path=s["path"], si=s["si"], orders=s["orders"], out=s["out"], stored=s["stored"],
+                              raised=s["raised"], mutated=s["mutated"],
+                              sig=[ids.setdefault(t, len(ids) + 1) for t in s["texts"]]) for s in r["specs"]]
+                events.append(dict(ev="run", hs=k, rep=ri, specs=specs))
         events.append(dict(ev="endruns"))
         traces = [dict(id=tid, mode="runs", prop=prop, cf=case["cf"], special=[], content=case["content"], events=events)]
     val = lib.validate_traces("CleanerTrace", "CleanerTrace.cfg", traces, jobs=1)
